@@ -19,7 +19,7 @@ SETTINGS = [  # (OMP_NUM_THREADS, OMP_SCHEDULE, OMP_DYNAMIC)
     ("16", "static", "false"), ("16", "static", "false"), ("64", "static", "false"), ("8", "dynamic,1", "true"),
 ]
 RULE = ("case = (protein fragment of 12 residues with hydrogens or a water box fragment, 12-40 frames built from 8 conformations + noise "
-        "(one case in three of the short ones: one conformation whose second part approaches / leaves the first rigidly by 0.1 nm per frame; "
+        "(one case in two of the short ones: one conformation whose second part approaches / leaves the first rigidly by 0.1 nm per frame; "
         "one case in four: 300 / 520 / 700 frames, every atom wrapped into its frame's cell, single frames taken around multiples of 128 / "
         "256 / 512, four OpenMP settings), "
         "triclinic per-frame varying cell, a frame permutation, index lists); each of 8 OpenMP settings (threads 1,2,3,5,16,16 again,64, "
@@ -34,6 +34,17 @@ ASSUMPTIONS = ["thread counts and OpenMP scheduling policy are chosen by the har
                "BLAS is pinned to one thread; numpy-only descriptors (rg, tensors, centres, density) are compared within 4 ulp + 1e-12"]
 WHERE = {}
 NUMPY_ONLY = {"rg", "gyration", "moments", "com", "cog", "inertia", "density"}
+
+
+ENUM_SCOPE = ("a fixed handful of representative cases run in every tier before the random ones: four slowly closing two-part "
+              "trajectories (conformations 1, 2, 4), one 8280-atom system")
+
+
+def enumerate_cases(tier):
+    for conf, split in ((1, 5), (1, 6), (2, 5), (4, 5)):
+        yield {"system": "protein", "nf": 30, "seed": 7 * conf + split, "noise": 0.0, "cell": "none",
+               "drift": {"dir": "closing", "split": split, "conf": conf, "axis": (conf + split) % 3}}
+    yield {"system": "water", "nf": 2, "seed": 5, "noise": 0.005, "cell": "ortho", "big": 69}
 
 
 @st.composite
@@ -51,10 +62,10 @@ def strategy(draw, tier="quick"):
         case.update(big=draw(st.sampled_from([69, 80])), system="water", nf=draw(st.integers(2, 3)), cell=draw(st.sampled_from(["ortho", "none", "tric-vary"])))
         case.pop("wrap", None)
         return case
-    if not case.get("long") and draw(st.integers(0, 2)) == 0:
+    if not case.get("long") and draw(st.integers(0, 1)) == 0:
         # successive frames that differ only slightly, as in a real simulation: one conformation, the part of the system after
         # residue `split` approaches the rest rigidly (or moves away) by 0.1 nm per frame, starting (ending) 2.4-3.4 nm apart
-        case.update(drift={"dir": draw(st.sampled_from(["closing", "opening"])), "split": draw(st.integers(4, 7)),
+        case.update(drift={"dir": draw(st.sampled_from(["closing", "closing", "opening"])), "split": draw(st.integers(4, 7)),
                            "conf": draw(st.sampled_from([1, 2, 4, 6, 7])), "axis": draw(st.integers(0, 2))},
                     nf=draw(st.integers(25, 35)), noise=0.0)
     return case
